@@ -30,6 +30,7 @@ type VC struct {
 	na0     Term
 	recDefs map[string]*recDef
 	regDefs map[Term]Term // region version -> the term it was defined as
+	nextEpoch int
 }
 
 func newVC(eng *Engine) *VC {
@@ -63,6 +64,17 @@ func (vc *VC) region(st *State, name string, nidx int, leaf string) Term {
 	}
 	if st.Track != nil {
 		return st.Track.formal(name)
+	}
+	if st.Epoch > 0 {
+		// first mention after a whole-heap havoc: an unknown version (the same one for every
+		// state that passed that havoc), not the entry version
+		en := fmt.Sprintf("%s@ep%d", name, st.Epoch)
+		first := !vc.sc.declared[sym(en)]
+		t := vc.sc.declare(en, arraySort(nidx, leaf))
+		if first {
+			vc.typeInv(name, t, nidx)
+		}
+		return t
 	}
 	t := vc.sc.declare(name+"@0", arraySort(nidx, leaf))
 	// heap well-formedness at function entry: every reference stored in the
@@ -98,6 +110,47 @@ func (vc *VC) region(st *State, name string, nidx int, leaf string) Term {
 		}
 	}
 	return t
+}
+
+// typeInv states, for a freshly introduced (unknown) version t of region name, what Go's
+// types guarantee of every value stored there whatever happened before: sized integers are in
+// range, slice lengths / capacities / offsets are non-negative. depth is how many of the
+// region's indices are still to be applied to t (nidx for a whole region, nidx-1 for one row, 0 for a cell).
+func (vc *VC) typeInv(name string, t Term, depth int) {
+	rk, ok := vc.eng.regionRef[name]
+	if !ok {
+		return
+	}
+	binders, cell := "", t
+	if i := strings.Index(rk, "|"); i > 0 && strings.HasPrefix(rk, "map:") {
+		if depth != 1 {
+			return
+		}
+		binders, cell = fmt.Sprintf("(r Int) (k %s)", rk[4:i]), fmt.Sprintf("(select (select %s r) k)", t)
+		rk = rk[i+1:]
+	} else {
+		switch depth {
+		case 1:
+			binders, cell = "(r Int)", fmt.Sprintf("(select %s r)", t)
+		case 2:
+			binders, cell = "(r Int) (i Int)", fmt.Sprintf("(select (select %s r) i)", t)
+		}
+	}
+	var fact Term
+	switch {
+	case rk == "len":
+		fact = fmt.Sprintf("(and (<= 0 %s) (<= %s %s))", cell, cell, maxLen)
+	case strings.HasPrefix(rk, "range "):
+		f := strings.SplitN(rk[6:], "..", 2)
+		fact = fmt.Sprintf("(and (<= %s %s) (<= %s %s))", f[0], cell, cell, f[1])
+	default:
+		return
+	}
+	if binders == "" {
+		vc.sc.assert(fact)
+	} else {
+		vc.sc.assert(fmt.Sprintf("(forall (%s) (! %s :pattern (%s)))", binders, fact, cell))
+	}
 }
 
 // noteRegionType records, per leaf region under prefix, what every value
